@@ -17,7 +17,10 @@ def main():
                 name = os.path.basename(d.rstrip('/')) + '/' + os.path.basename(diff)
                 sh(f'git -C {WT} reset -q --hard')
                 r = sh(f'git -C {WT} apply {diff}')
-                if r.returncode: print(f'{name}: does not apply: {r.stderr.strip()[:100]}'); continue
+                if r.returncode:
+                    r = sh(f'git -C {WT} apply --3way {diff}')          # written against an earlier HEAD: the fix: commits since moved the context
+                    if r.returncode or 'with conflicts' in (r.stdout + r.stderr): print(f'{name}: does not apply: {r.stderr.strip()[:100]}'); sh(f'git -C {WT} reset -q --hard'); continue
+                    sh(f'git -C {WT} reset -q')
                 pids = [f'C{i:02d}' for i in range(1, 21) if sources.changed_functions(WT, f'C{i:02d}')]
                 for pid in pids:
                     if pid == 'C20' and len(pids) > 1 and os.environ.get('REFAC_C20') != '1': pass
